@@ -82,6 +82,10 @@ def cases(tier: str, seed: int) -> list[dict]:
             classes = ["plain", "affine"]
             if et.startswith("QUAD") or et.startswith("HEXA"):
                 classes.append("general")
+            if et in ("TETRA4", "PRISM6", "HEXA8"):
+                # extruded column whose cross-section shrinks or grows linearly with the height: planar faces, straight edges, but the two
+                # end faces of an element are no translates of each other (the jacobian varies inside every prism and hexahedron)
+                classes.append("tapered")
             for mc in classes:
                 out.append({"kind": "mesh", "et": et, "mesh": mc})
     for i, c in enumerate(out):
@@ -269,6 +273,14 @@ def run_mesh(case, ctx):
             if mc == "affine":
                 A, t = gm.affine_map(rng, dim)
                 mesh = gm.rebuild(mesh, coord=mesh.coord @ A.T + t)
+            taper = None
+            if mc == "tapered":
+                taper = float(rng.choice([-1, 1]) * rng.uniform(0.2, 0.6))
+                X = mesh.coord.copy()
+                sz = 1 + taper * X[:, 2] / h
+                X[:, 0] *= sz
+                X[:, 1] *= sz
+                mesh = gm.rebuild(mesh, coord=X)
     # analytic measure / centroid before the affine map
     if dim == 1:
         measure, cen = L, np.array([x0 + L / 2, 0, 0])
@@ -279,6 +291,13 @@ def run_mesh(case, ctx):
     if A is not None:
         measure *= abs(np.linalg.det(A))
         cen = A @ cen + t
+    if dim == 3 and mc == "tapered":
+        a_ = taper
+        i2 = 1 + a_ + a_**2 / 3  # (1/h) int (1 + a z/h)^2 dz
+        i3 = ((1 + a_) ** 4 - 1) / (4 * a_)  # (1/h) int (1 + a z/h)^3 dz
+        iz = 0.5 + 2 * a_ / 3 + a_**2 / 4  # (1/h^2) int z (1 + a z/h)^2 dz
+        measure = abs(area) * h * i2
+        cen = np.array([c2[0] * i3 / i2, c2[1] * i3 / i2, h * iz / i2])
     with ctx.monitored("no-exception", key + "/raised"):
         got_measure = {1: mesh.length, 2: mesh.area, 3: mesh.volume}[dim]
         got_center = np.asarray(mesh.center)
@@ -292,7 +311,7 @@ def run_mesh(case, ctx):
     ctx.check("element-measures", relerr(got_e, want_e), 1e-9, key + "/element-measures")
     # low-degree moments (unmapped geometry only: analytic polygon moments)
     nmom = 0
-    if A is None:
+    if A is None and mc != "tapered":
         kmax = kmax_for(et, mc)
         single = len(groups) == 1
         worst = 0.0
